@@ -345,6 +345,12 @@ class Gen:
                         body[-1][6] = self.chance('p_catch')
                     else:
                         body[-1][4] = self.chance('p_catch')
+        if is_file and not getattr(self, 'cache_dir_mode', None) and \
+                rng.random() < p.get('p_self_list', 0.06):
+            # the function looks at the directory it works in
+            body.insert(rng.randint(0, len(body)),
+                        ['q', rng.choice(['list_dir', 'walk', 'is_dir',
+                                          'list_dir']), '@parent'])
         if is_file:
             r = rng.random()
             if r < p['p_write_never']:
@@ -583,6 +589,54 @@ class Gen:
                     if rng.random() < 0.4:
                         dense.append(self.gen_query(U))
                 root = dense + [st for st in root if st[0] != 'bf']
+            if not getattr(self, 'cache_dir_mode', None) and \
+                    rng.random() < self.p.get('p_overlap_struct', 0.0):
+                # structured overlap inside one cacheable parent: a failing
+                # build_file below D whose function looks at the directory it
+                # works in, and a build_file of D itself as a regular file
+                D = rng.choice(['v', 'u/v', 'v'])
+                x = D + '/' + rng.choice(['x', 'y/x'])
+                fl, fo, par = 'F%dl' % idx, 'F%do' % idx, 'P%d' % idx
+                idx += 1
+                lister = [['q', rng.choice(['list_dir', 'walk', 'walk_bu',
+                                            'is_dir', 'list_dir']),
+                           '@parent']]
+                mode = rng.choice(['nowrite', 'raise_after', 'unlink'])
+                if mode == 'raise_after':
+                    lister = [['w', 'once']] + lister + [
+                        ['raise', rng.choice(USER_EXC)]]
+                elif mode == 'unlink':
+                    lister = lister + [['w', 'unlink']]
+                if rng.random() < 0.4:
+                    # the listing happens one level further down
+                    sl = 'S%dl' % (idx - 1)
+                    funcs[sl] = {'kind': 'sub', 'name': 'n' + sl,
+                                 'variants': [[['q', 'list_dir', D]]]}
+                    lister = [['sb', sl, [], {}, True]] + [
+                        st for st in lister if st[0] != 'q']
+                funcs[fl] = {'kind': 'file', 'name': 'n' + fl,
+                             'variants': [lister]}
+                funcs[fo] = {'kind': 'file', 'name': 'n' + fo,
+                             'variants': [[['w', 'once']]]}
+                calls = [['bf', x, fl, [], {}, 'METADATA', True],
+                         ['bf', D, fo, [], {},
+                          rng.choice(['METADATA', 'HASH']), True]]
+                if rng.random() < 0.25:
+                    calls.reverse()
+                pbody = [calls[0]] + [self.gen_query(U) for _ in range(
+                    rng.randint(0, 1))] + [calls[1]]
+                if rng.random() < 0.5:
+                    funcs[par] = {'kind': 'sub', 'name': 'n' + par,
+                                  'variants': [pbody]}
+                    root.insert(rng.randint(0, len(root)),
+                                ['sb', par, [], {}, True])
+                else:
+                    funcs[par] = {'kind': 'file', 'name': 'n' + par,
+                                  'variants': [pbody + [['w', 'once']]]}
+                    root.insert(rng.randint(0, len(root)),
+                                ['bf', 'pp%d' % idx, par, [], {}, 'HASH',
+                                 True])
+                U = sorted(set(U) | {D, x})
             roots.append(root)
             groups.append({'O': O, 'files': [f for _, f in files],
                            'subs': [f for _, f in subs]})
